@@ -137,3 +137,27 @@ func toPointerSlice[T any](slice []T) []*T {
 	}
 	return result
 }
+
+// returns the names of the given arguments sorted by the position of the argument expressions in the source code
+// (and by name for arguments at the same position)
+// used to visit the arguments of calls and struct literals in a deterministic order
+func SortedArgNames(args map[string]Expression) []string {
+	names := make([]string, 0, len(args))
+	for name := range args {
+		names = append(names, name)
+	}
+	sort.Slice(names, func(i, j int) bool {
+		var posI, posJ token.Position
+		if args[names[i]] != nil {
+			posI = args[names[i]].GetRange().Start
+		}
+		if args[names[j]] != nil {
+			posJ = args[names[j]].GetRange().Start
+		}
+		if posI != posJ {
+			return posI.IsBefore(posJ)
+		}
+		return names[i] < names[j]
+	})
+	return names
+}
